@@ -24,6 +24,7 @@ type pipeCase struct {
 	Elem      string `json:"elem,omitempty"`       // element type of the queues (see queueCodec in queue_test.go)
 	Observe   bool   `json:"observe,omitempty"`    // the readers look at their output (GetSize, IsEmpty, AsArray) before every RemoveHead
 	Past      int    `json:"past,omitempty"`       // the input queue has been used before: this many values were added and discarded with RemoveAll
+	InputFrom string `json:"input_from,omitempty"` // the input queue is made from a collection holding the whole stream (Array, List), which the caller then reorders in place
 }
 
 // counter is the caller's wait group.  Under the cooperative scheduler one goroutine runs at a time.
@@ -59,6 +60,10 @@ func genPipe(maxLen int) func(core.Source) pipeCase {
 		if s.Choose(3, "past") == 0 {
 			c.Past = 1 + s.Choose(int(c.Cap), "past-values")
 		}
+		if c.Past == 0 && s.Choose(4, "input-from") == 0 {
+			c.InputFrom = core.Pick(s, []string{"Array", "List"}, "input-kind")
+			c.FeedFirst = true // the stream is in the queue from the start
+		}
 		return c
 	}
 }
@@ -79,6 +84,29 @@ func execPipeE[E any](c pipeCase, src core.Source, cd lib.Codec[E]) (res core.Re
 	n := lib.Notation()
 	Q := col.Queue[E](n)
 	input := Q.MakeWithCapacity(c.Cap)
+	values := make([]int, c.Length)
+	for i := range values {
+		values[i] = i + 1
+	}
+	if c.InputFrom != "" {
+		// the stream comes from a collection of another kind, which stays the caller's: it is reordered and
+		// overwritten in place as soon as the queue has been made from it
+		var src interface {
+			col.Sequential[E]
+			col.Sortable[E]
+			col.Updatable[E]
+		}
+		if c.InputFrom == "Array" {
+			src = col.Array[E](n).MakeFromArray(lib.EncAll(cd, values))
+		} else {
+			src = col.List[E](n).MakeFromArray(lib.EncAll(cd, values))
+		}
+		input = Q.MakeFromSequence(src)
+		src.ReverseValues()
+		if src.GetSize() > 0 {
+			src.SetValue(1, cd.Enc(99))
+		}
+	}
 	for k := 0; k < c.Past && k < int(c.Cap); k++ {
 		input.AddValue(cd.Enc(90 + k)) // values of an earlier use of the queue, discarded before the pipeline is built
 	}
@@ -86,10 +114,6 @@ func execPipeE[E any](c pipeCase, src core.Source, cd lib.Codec[E]) (res core.Re
 		input.RemoveAll()
 	}
 	group := &counter{}
-	values := make([]int, c.Length)
-	for i := range values {
-		values[i] = i + 1
-	}
 	var outputs []col.QueueLike[E]
 	received := map[int][]int{}
 	afterClose := map[int]string{}
@@ -110,11 +134,14 @@ func execPipeE[E any](c pipeCase, src core.Source, cd lib.Codec[E]) (res core.Re
 	defer uninstall()
 	registered := -1
 	s.Go("main", func() {
-		if c.FeedFirst {
+		if c.FeedFirst && c.InputFrom == "" {
 			for _, v := range values {
 				input.AddValue(cd.Enc(v))
 			}
 			input.CloseQueue()
+		}
+		if c.InputFrom != "" {
+			input.CloseQueue() // (under the scheduler, which has to see the close)
 		}
 		switch c.Topology {
 		case "Fork":
@@ -251,6 +278,9 @@ func execPipeE[E any](c pipeCase, src core.Source, cd lib.Codec[E]) (res core.Re
 	if c.Past > 0 {
 		res.Classes = append(res.Classes, "input-used-before")
 	}
+	if c.InputFrom != "" {
+		res.Classes = append(res.Classes, "input-made-from-"+c.InputFrom)
+	}
 	if r.AnyBlocked {
 		res.Classes = append(res.Classes, "some-call-blocked")
 	}
@@ -329,9 +359,9 @@ func TestC06(t *testing.T) {
 	defer r.End()
 	// every schedule of the smallest pipelines, one bounded enumeration per configuration (the schedule
 	// space explodes quickly: the bound keeps the tier's budget, exhaustive=false is reported when it is hit)
-	for _, cfg := range []pipeCase{{"Fork", 0, 2, 1, false, "", false, 0}, {"Split", 0, 2, 1, false, "", false, 0}, {"Split", 1, 2, 1, false, "", false, 0}, {"Fork", 1, 2, 1, false, "", false, 0}, {"Split", 1, 3, 1, false, "", false, 0}, {"SplitJoin", 0, 2, 1, false, "", false, 0}, {"SplitJoin", 1, 2, 1, false, "", false, 0},
-		{"Fork", 1, 2, 1, false, "anynil", false, 0}, {"Split", 1, 2, 1, false, "anynil", false, 0}, {"SplitJoin", 1, 2, 1, false, "anynil", false, 0},
-		{"Fork", 2, 2, 1, false, "", true, 0}, {"Split", 2, 2, 1, false, "", true, 0}} {
+	for _, cfg := range []pipeCase{{"Fork", 0, 2, 1, false, "", false, 0, ""}, {"Split", 0, 2, 1, false, "", false, 0, ""}, {"Split", 1, 2, 1, false, "", false, 0, ""}, {"Fork", 1, 2, 1, false, "", false, 0, ""}, {"Split", 1, 3, 1, false, "", false, 0, ""}, {"SplitJoin", 0, 2, 1, false, "", false, 0, ""}, {"SplitJoin", 1, 2, 1, false, "", false, 0, ""},
+		{"Fork", 1, 2, 1, false, "anynil", false, 0, ""}, {"Split", 1, 2, 1, false, "anynil", false, 0, ""}, {"SplitJoin", 1, 2, 1, false, "anynil", false, 0, ""},
+		{"Fork", 2, 2, 1, false, "", true, 0, ""}, {"Split", 2, 2, 1, false, "", true, 0, ""}} {
 		cfg := cfg
 		name := fmt.Sprintf("all-schedules-%s-len%d-fan%d", cfg.Topology, cfg.Length, cfg.FanOut)
 		if cfg.Elem != "" {
